@@ -20,7 +20,7 @@ from vlib.runner import Violation, hyp_run, sut_frame, watchdog
 ID = 'C12'
 LEVEL = 'exploration'
 RULE = ('Hypothesis: nested flows of unique words, \\foreignlanguage, otherlanguage(*), \\selectlanguage (top level and inside language scopes), footnotes, pass-through macros, '
-        'control words and formulas at argument ends, simple insertions of 1-6 words; main language by option or by babel package option; languages german, french, english, russian and an unknown name; '
+        'control words (also such with an optional argument that is not given: \\footnotemark, \\printbibliography, a user macro, \\\\) and formulas at argument ends, simple insertions of 1-6 words; main language by option or by babel package option; languages german, french, english, russian and an unknown name; '
         'thresholds 0..5. oracle (i)-(iv) above against a reference language tracker and the single-language run. '
         'non-trivial = at least two languages AND a language command nested in another language scope, an argument or a footnote; distinct by source text')
 ASSUMPTIONS = [
@@ -36,6 +36,7 @@ LM = {'german': 'de-DE', 'french': 'fr', 'english': 'en-GB', 'russian': 'ru-RU',
 CHANGE = ['K-K-K', 'L-L-L', 'M-M-M', 'N-N-N', 'К-К-К', 'Л-Л-Л', 'М-М-М', 'Н-Н-Н']
 WORD = re.compile(r'W[a-j]{3}q')
 F7_FIXED = True
+CWS = ['\\LaTeX', '\\LaTeX', '\\footnotemark', '\\printbibliography', '\\zzoa', '\\\\']
 
 sep = st.sampled_from([' ', '\n', '  ', '\n\n', ' ', ' %c\n'])
 langs = st.sampled_from(list(LM))
@@ -51,7 +52,7 @@ def item(child):
         st.tuples(st.just('sel'), langs),
         st.tuples(st.just('ins'), langs, st.integers(1, 6)),
         st.tuples(st.just('selsplit'), langs),
-        st.just(('cw',)), st.just(('math',)))
+        st.tuples(st.just('cw'), st.integers(0, len(CWS) - 1)), st.just(('math',)))
 
 
 leaf = st.lists(st.tuples(sep, st.just(('w',))), min_size=1, max_size=3)
@@ -90,7 +91,8 @@ def rend(m, fl, first=False):
         if k == 'w':
             m.word()
         elif k == 'cw':
-            m.src += '\\LaTeX'
+            # a macro without argument, or one whose optional argument is not given (it looks ahead for '[')
+            m.src += CWS[it[1]] if len(it) > 1 else '\\LaTeX'
         elif k == 'math':
             m.src += '$x$'
         elif k == 'fl':
@@ -199,6 +201,7 @@ def check(doc):
     fl, thresh, babel = doc
     m = M('en-GB')
     apply_babel(m, babel)
+    m.src += '\\newcommand{\\zzoa}[1][]{}\n'
     rend(m, fl, True)
     src = m.src + '\n'
     case = {'doc': doc, 'src': src}
